@@ -214,7 +214,8 @@ def parseStmt (raw : List Char) (ts : List PTok) : Option Stmt :=
     let last ← ts.getLast?
     if last.tok != .sym ')' then none else
     let inner := ts.dropLast
-    let defs ← (splitCommas 0 [] inner).mapM (fun d => do
+    -- a table without columns: `CREATE TABLE t ()` (Postgres)
+    let defs ← if inner.isEmpty then some [] else (splitCommas 0 [] inner).mapM (fun d => do
       let (c, rest) ← parseColDef raw d
       if rest.isEmpty then some c else none)
     some (.createTable t 0 defs [])) <|>
